@@ -14,7 +14,7 @@
      is_unmodelled _ = false   the model has an answer (inline struct fields have no template case). *)
 From Coq Require Import List String ZArith Bool.
 From Cog Require Import Model.GoSem Model.GoSemSpec08 Model.GoSemSpec08F Model.GoSemSpec01 Proofs.GoSemC08Proofs
-     Model.Src Model.FrontEnd Model.FrontEndSpec Proofs.FrontEndWitness Proofs.FrontEndFields.
+     Model.Src Model.FrontEnd Model.FrontEndSpec Proofs.FrontEndWitness Proofs.FrontEndFields Model.FrontEndSpecOA Proofs.FrontEndOA.
 Import ListNotations.
 Local Open Scope string_scope.
 
@@ -107,3 +107,8 @@ Theorem parse_jsonschema_keeps_constraints_partial :
     field_kept s obj f = true.
 Proof. exact parse_jsonschema_keeps_constraints_partial_weak. Qed.
 Print Assumptions parse_jsonschema_keeps_constraints_partial.
+(* OpenAPI: every member keeps its constraints, required-ness and nullability, no exclusion *)
+Theorem parse_openapi_keeps_constraints :
+  forall s obj fs f, src_wf_oa s = true -> In (obj, SStruct fs) (src_defs s) -> In f fs -> oa_field_kept s obj f = true.
+Proof. exact parse_openapi_keeps_constraints_partial. Qed.
+Print Assumptions parse_openapi_keeps_constraints.
